@@ -17,11 +17,16 @@ STUBS = ['the ACK-feeding peer (records segments, builds ACK packets)', 'the tex
 ASSUMPTIONS = ['ssthresh after a retransmission timeout is not specified by the statement: the reference adopts the observed '
                'value there', 'CUBIC congestion avoidance is compared with the window-growth function of the CUBIC paper '
                '(C = 0.4, beta = 0.2, TCP-friendly region on) in the sender\'s units', 'scripted new ACKs never acknowledge unsent data; duplicates repeat the current mark']
-PROBES = ['cubic_avoidance', 'ack_in_expiry_instant', 'buffered_not_multiple_of_mss', 'paced_flow', 'one_or_two_dups_then_new', 'ge4_dups', 'ack_advancing_several', 'timeout_during_fast_recovery', 'timeout',
+PROBES = ['sender_feeds_a_real_port', 'timer_expired_while_segment_queued_locally', 'cubic_avoidance', 'ack_in_expiry_instant', 'buffered_not_multiple_of_mss', 'paced_flow', 'one_or_two_dups_then_new', 'ge4_dups', 'ack_advancing_several', 'timeout_during_fast_recovery', 'timeout',
           'fast_retransmit', 'congestion_avoidance', 'slow_start', 'cc_cubic', 'dups_with_nothing_outstanding']
 
 
 def gen(rng, tier):
+    if rng.random() < 0.05:
+        return {'sub': 'barepath', 'cc': rng.choice(['reno', 'reno', 'cubic']), 'segments': rng.randint(4, 30),
+                'cwnd': rng.choice([MSS, 4 * MSS, 20 * MSS]), 'ssthresh': rng.choice([65535, 2048]),
+                'rtt_est': rng.choice([0.05, 0.1, 0.4]), 'port_rate': rng.choice([20480, 40960, 409600]),
+                'd': rng.choice([0.05, 0.5, 1.0]), 'events': []}
     cc = rng.choice(['reno', 'reno', 'reno', 'cubic'])
     ev = []
     long_ca = rng.random() < 0.05
@@ -77,7 +82,51 @@ class Peer:
         self.highest = max(self.highest, p.packet_id + p.size)
 
 
+def run_barepath(case):
+    """The sender's next hop is a real, slow Port (then wires and a real TCPSink, nothing tapped): retransmission timers
+    expire while their segments are still queued locally. Every expiry must be handled by the rule of the statement."""
+    from onl.netdev import Port, Wire
+    from onl.packet import TCPSink, TCPPacketGenerator, TCPReno, TCPCubic
+    from onl.packet.tcp_generator import Flow
+    w = NetWorld(0)
+    env = w.env
+    n = case.get('segments', 8)
+    flow = Flow(flow_id=1, src='h0', dst='h1', finish_time=None, size=n * MSS)
+    cc = TCPCubic() if case.get('cc') == 'cubic' else TCPReno(mss=MSS, cwnd=case.get('cwnd', MSS), ssthresh=case.get('ssthresh', 65535))
+    sender = TCPPacketGenerator(env, flow, cc, element_id='h0', rtt_estimate=case.get('rtt_est', 0.1))
+    sink = TCPSink(env)
+    port = Port(env, case.get('port_rate', 40960), None, False, 'p0')
+    wd, wa = Wire(env, lambda: case.get('d', 0.5)), Wire(env, lambda: case.get('d', 0.5))
+    sender.out, port.out, wd.out, sink.out, wa.out = port, wd, sink, wa, sender
+    orig = sender.timeout_callback
+    viol, stats = [], {'sender_feeds_a_real_port': 1}
+
+    def observed(packet_id):
+        c = sender.congestion_control
+        before = (c.cwnd, sender.rto)
+        queued = any(getattr(x, 'packet_id', None) == packet_id for x in port.store.items)
+        r = orig(packet_id)
+        if queued:
+            stats['timer_expired_while_segment_queued_locally'] = 1
+        if c.cwnd != MSS or not close(sender.rto, 2 * before[1]):
+            viol.append(('C17.3', 'retransmission timeout of segment %r at t=%r (segment %s in the sender\'s own port): cwnd '
+                         '%r -> %r, rto %r -> %r; the rule gives cwnd %d and rto %r' %
+                         (packet_id, env.now, 'still queued' if queued else 'not queued', before[0], c.cwnd, before[1],
+                          sender.rto, MSS, 2 * before[1])))
+        return r
+    sender.timeout_callback = observed
+    w.run(max_steps=60000)
+    for r in w.log:
+        if r[0] == 'ERR':
+            viol.append(('C17.5', 'the run raised %r' % (r[4],)))
+            break
+    return {'viol': viol[:3], 'digest': digest_of((w.env.now, sender.last_ack, tuple(sink.recv_buffer and sink.recv_buffer[0]))),
+            'nontrivial': True, 'stats': stats, 'simtime': float(env.now), 'steps': w.steps}
+
+
 def run(case):
+    if case.get('sub') == 'barepath':
+        return run_barepath(case)
     sync = case.get('sync_ack')
     at = None
     if sync:
